@@ -74,7 +74,7 @@ SeqSet(s) == {s[i] : i \in DOMAIN s}
 MiscInit == [probe |-> [e \in EP |-> -1], thr |-> <<>>, cbs |-> <<>>, ackDue |-> [e \in EP |-> -1],
              incn |-> <<>>, fwdMax |-> [e \in EP |-> -1],
              nack |-> [line |-> 0, to |-> -1, set |-> {}, hb |-> FALSE], teardown |-> FALSE, calls |-> <<>>, inj |-> <<>>, dead |-> [e \in EP |-> FALSE], abortRx |-> [e \in EP |-> FALSE], fuzzed |-> FALSE, abortSeen |-> [e \in EP |-> FALSE], shutAt |-> <<>>, shutRet |-> <<>>, closedInc |-> <<>>, wdl |-> <<>>, rdl |-> <<>>, reqs |-> <<>>, gen |-> <<>>, performed |-> {}, genAtRx |-> <<>>, rsGen |-> <<>>,
-             pendReads |-> <<>>, hbCalls |-> <<>>, hbSeen |-> {}, txn |-> [e \in EP |-> 0], wfail |-> {}]
+             pendReads |-> <<>>, hbCalls |-> <<>>, hbSeen |-> {}, txn |-> [e \in EP |-> 0], wfail |-> {}, rdBase |-> <<>>]
 
 InitVars ==
   /\ scen = "" /\ cfg = [none |-> TRUE]
@@ -207,7 +207,7 @@ ReadViol(e) ==
     \cup (IF e.id # 0 /\ e.id \in prevIds THEN {V("C06_AtMostOnce", <<e.ep, e.sid, e.id>>)} ELSE {})
     \cup (IF known /\ pos # 0 /\ (m.len # e.len \/ m.ppi # e.ppi) THEN {V("C06_Intact", <<e.ep, e.sid, e.id, e.len, e.ppi>>)} ELSE {})
     \cup (IF known /\ pos # 0 /\ ~m.unord /\ laterDelivered # {} THEN {V("C06_OrderedSubseq", <<e.ep, e.sid, e.id>>)} ELSE {})
-    \cup (IF \E i \in DOMAIN prev : ~prev[i].ok /\ prev[i].err \notin {"short", "deadline"}
+    \cup (IF \E i \in DOMAIN prev : i > Get(misc.rdBase, k, 0) /\ ~prev[i].ok /\ prev[i].err \notin {"short", "deadline"}
           THEN {V("C08_DataAfterClosure", <<e.ep, e.sid, e.id>>)} ELSE {})
     \cup (IF known /\ pos # 0 /\ ~m.unord /\ earlierReliableMissing # {}
           THEN {V("C01_SkippedReliable", <<e.ep, e.sid, e.id, sent[Min(earlierReliableMissing)]>>)} ELSE {})
@@ -443,7 +443,9 @@ RecoFold(m, e, ps, i) ==
 RecoViol(c) ==
   LET e == c.ep
       reqs == {c.params[i] : i \in {j \in DOMAIN c.params : c.params[j].p = "req"}}
-  IN UNION {LET late == {t \in DOMAIN ch[e] : ch[e][t].sid \in SeqSet(r.sids) /\ t > r.last} IN
+  \* judged on the first transmission of a request only: a re-sent request legitimately carries its old last-TSN
+  \* while the identifier may have been re-opened and written since
+  IN UNION {LET late == {t \in DOMAIN ch[e] : ch[e][t].sid \in SeqSet(r.sids) /\ t > r.last /\ <<e, r.rsn>> \notin DOMAIN misc.reqs} IN
             (IF late # {} THEN {V("C14_ResetAfterData", <<e, r.rsn, r.last, Min(late)>>)} ELSE {})
             \cup (IF r.last > hi[e] THEN {V("C14_ResetLastTsn", <<e, r.rsn, r.last, hi[e]>>)} ELSE {})
             : r \in reqs}
@@ -793,7 +795,9 @@ ApiViol(x) ==
 TrApi ==
   /\ IsEv("api")
   /\ misc' = CASE E.op = "threshold" -> [misc EXCEPT !.thr = Upd(@, <<E.ep, E.sid>>, E.val), !.cbs = Upd(@, <<E.ep, E.sid>>, 0)]
-               [] E.op \in {"open", "accept"} /\ E.ok -> [misc EXCEPT !.incn = Upd(@, <<E.ep, E.sid>>, Get(@, <<E.ep, E.sid>>, 0) + 1)]
+               [] E.op \in {"open", "accept"} /\ E.ok -> [misc EXCEPT !.incn = Upd(@, <<E.ep, E.sid>>, Get(@, <<E.ep, E.sid>>, 0) + 1),
+                                                              \* reads of the new stream object start here (an EOF read belongs to the old one)
+                                                              !.rdBase = Upd(@, <<E.ep, E.sid>>, Len(Get(reads, <<E.ep, E.sid>>, <<>>)))]
                [] E.op \in {"shutdown-call", "close-call", "abort-call", "connfail"} ->
                     [misc EXCEPT !.teardown = TRUE, !.shutAt = IF E.op = "shutdown-call" THEN Upd(@, E.ep, l) ELSE @]
                [] E.op = "shutdown-ret" -> [misc EXCEPT !.shutRet = Upd(@, E.ep, E.ok)]
